@@ -150,14 +150,93 @@ var c08Specs = []c08Spec{
 	{name: "inmem+cache+encoding+barrier+barrierview", cache: true, enc: true, barrier: true, bview: true},
 }
 
-func c08Build(spec c08Spec) (c08Store, error) {
+// c08Hook is a pass-through transactional backend placed directly above the in-memory backend, i.e. BELOW the cache
+// (and every other layer). It gives the harness two generated interleaving points inside Commit of the layers above it:
+// a one-shot hook run just before the inner Commit is called, and one run just after the inner Commit returned
+// successfully. The hooks run synchronously in the test goroutine (at those two moments physical.cacheTransaction.Commit
+// holds none of its locks: the per-key parent locks and modifiedLock are only taken after the inner Commit returned).
+type c08Hook struct {
+	inner  physical.TransactionalBackend
+	before func()
+	after  func()
+}
+
+func (h *c08Hook) Put(ctx context.Context, e *physical.Entry) error { return h.inner.Put(ctx, e) }
+func (h *c08Hook) Get(ctx context.Context, k string) (*physical.Entry, error) {
+	return h.inner.Get(ctx, k)
+}
+func (h *c08Hook) Delete(ctx context.Context, k string) error { return h.inner.Delete(ctx, k) }
+func (h *c08Hook) List(ctx context.Context, p string) ([]string, error) {
+	return h.inner.List(ctx, p)
+}
+
+func (h *c08Hook) ListPage(ctx context.Context, p, after string, limit int) ([]string, error) {
+	return h.inner.ListPage(ctx, p, after, limit)
+}
+
+func (h *c08Hook) BeginTx(ctx context.Context) (physical.Transaction, error) {
+	tx, err := h.inner.BeginTx(ctx)
+	if err != nil {
+		return nil, err
+	}
+	return &c08HookTxn{Transaction: tx, h: h}, nil
+}
+
+func (h *c08Hook) BeginReadOnlyTx(ctx context.Context) (physical.Transaction, error) {
+	tx, err := h.inner.BeginReadOnlyTx(ctx)
+	if err != nil {
+		return nil, err
+	}
+	return &c08HookTxn{Transaction: tx, h: h}, nil
+}
+
+type c08HookTxn struct {
+	physical.Transaction
+	h *c08Hook
+}
+
+func (t *c08HookTxn) Commit(ctx context.Context) error {
+	// both hooks are one-shot and belong to the commit they were armed for
+	before, after := t.h.before, t.h.after
+	t.h.before, t.h.after = nil, nil
+	if before != nil {
+		before()
+	}
+	err := t.Transaction.Commit(ctx)
+	if err == nil && after != nil {
+		after()
+	}
+	return err
+}
+
+type c08Built struct {
+	store      c08Store
+	hook       *c08Hook
+	base       physical.Backend // the in-memory backend itself
+	fullPrefix string           // a key k of the top lives at fullPrefix+k in base
+	encrypted  bool
+}
+
+func c08Build(spec c08Spec) (*c08Built, error) {
+	bt := &c08Built{}
+	st, err := c08BuildStore(spec, bt)
+	if err != nil {
+		return nil, err
+	}
+	bt.store = st
+	return bt, nil
+}
+
+func c08BuildStore(spec c08Spec, bt *c08Built) (c08Store, error) {
 	ctx := context.Background()
 	nl := log.NewNullLogger()
 	base, err := inmem.NewInmem(nil, nl)
 	if err != nil {
 		return nil, err
 	}
-	cur := base
+	bt.base = base
+	bt.hook = &c08Hook{inner: base.(physical.TransactionalBackend)}
+	var cur physical.Backend = bt.hook
 	if spec.cache {
 		c := physical.NewCache(cur, 0, nl, &metrics.BlackholeSink{})
 		c.SetEnabled(true)
@@ -171,6 +250,7 @@ func c08Build(spec c08Spec) (c08Store, error) {
 		return nil, fmt.Errorf("stack %s: %T is not a physical.TransactionalBackend", spec.name, cur)
 	}
 	if spec.pview {
+		bt.fullPrefix = "v/w/"
 		return c08PView{sxPhys{physical.NewView(cur, "v/w/")}, tb, "v/w/"}, nil
 	}
 	if !spec.barrier && !spec.logical {
@@ -190,14 +270,17 @@ func c08Build(spec c08Spec) (c08Store, error) {
 			return nil, err
 		}
 		ls = b
+		bt.encrypted = true
 	} else {
 		ls = logical.NewLogicalStorage(cur)
 	}
 	if spec.lview {
 		ls = logical.NewStorageView(ls, "v/")
+		bt.fullPrefix = "v/"
 	}
 	if spec.bview {
 		ls = barrier.NewView(ls, "v/").SubView("w/")
+		bt.fullPrefix = "v/w/"
 	}
 	ts, ok := ls.(logical.TransactionalStorage)
 	if !ok {
@@ -277,6 +360,9 @@ type c08Run struct {
 	done     []*c08MTxn
 	nextID   int
 	hist     []string
+	bt       *c08Built
+	baseForeign map[string]bool // keys the stack itself put into the base store while it was built (barrier keyring)
+	hookAfter, hookBefore, hookOnTxnKey int
 	foreignTop map[string]bool
 	// case statistics
 	maxOpen          int
@@ -504,14 +590,102 @@ func (r *c08Run) staleObs(x *c08MTxn) string {
 	return ""
 }
 
+type c08HookOp struct {
+	key string
+	del bool
+	val []byte
+}
+
 func (r *c08Run) commit(rt *rapid.T) {
+	r.doCommit(r.pickOpen(rt), "", nil)
+}
+
+// commitHooked: a commit with 1-2 plain writes (through the top of the stack) landing inside it, either just before the
+// inner-most Commit is called or just after it returned successfully — below the cache and every other layer.
+func (r *c08Run) commitHooked(rt *rapid.T) {
 	x := r.pickOpen(rt)
+	when := rapid.SampledFrom([]string{"after", "after", "before"}).Draw(rt, "hookWhen")
+	var own []string
+	for k := range x.overlay {
+		own = append(own, k)
+	}
+	sort.Strings(own)
+	n := rapid.IntRange(1, 2).Draw(rt, "hookOps")
+	ops := make([]c08HookOp, n)
+	for i := range ops {
+		if len(own) > 0 && rapid.Bool().Draw(rt, "hookOnTxnKey") {
+			ops[i].key = own[rapid.IntRange(0, len(own)-1).Draw(rt, "hookOwnKey")]
+		} else {
+			ops[i].key = rapid.SampledFrom(c08Keys).Draw(rt, "hookKey")
+		}
+		ops[i].del = rapid.IntRange(0, 2).Draw(rt, "hookDelete") == 0
+		if !ops[i].del {
+			ops[i].val = rapid.SampledFrom(c08Values).Draw(rt, "hookVal")
+		}
+	}
+	r.doCommit(x, when, ops)
+}
+
+// applyHookOps puts the plain writes of a hook into the model, one committed version each.
+func (r *c08Run) applyHookOps(x *c08MTxn, ops []c08HookOp) {
+	for _, o := range ops {
+		m := sxCloneMap(r.cur())
+		if o.del {
+			delete(m, o.key)
+		} else {
+			m[o.key] = o.val
+		}
+		r.pushVersion(m, []string{o.key})
+		if _, ok := x.overlay[o.key]; ok {
+			r.hookOnTxnKey++
+		}
+	}
+}
+
+func (r *c08Run) doCommit(x *c08MTxn, when string, ops []c08HookOp) {
+	fired := false
+	var hookErr error
+	hook := func() {
+		fired = true
+		for _, o := range ops {
+			var err error
+			if o.del {
+				err = r.st.Delete(r.ctx, o.key)
+			} else {
+				err = r.st.Put(r.ctx, o.key, o.val)
+			}
+			if err != nil && hookErr == nil {
+				hookErr = fmt.Errorf("plain write to %s inside commit: %w", o.key, err)
+			}
+		}
+	}
+	switch when {
+	case "before":
+		// serial order that really happens: the plain writes, then the commit attempt
+		r.bt.hook.before = hook
+		r.applyHookOps(x, ops)
+	case "after":
+		r.bt.hook.after = hook
+	}
 	touched := r.touched(x)
 	othersCommitted := len(r.versions)-1 > x.beginVer
 	stale := r.staleObs(x)
 	err := x.h.Commit(r.ctx)
-	r.log("T%d commit -> %v", x.id, err)
+	r.bt.hook.before, r.bt.hook.after = nil, nil
+	r.log("T%d commit hook=%q ops=%v fired=%v -> %v", x.id, when, ops, fired, err)
 	r.removeOpen(x)
+	if hookErr != nil {
+		r.viol("plain-op-error", "%v", hookErr)
+	}
+	if when == "before" {
+		if !fired {
+			r.rt.Fatalf("harness: before-commit hook did not fire (commit never reached the base transaction)")
+		}
+		r.hookBefore++
+	}
+	if when == "after" && fired != (err == nil) {
+		r.rt.Fatalf("harness: after-commit hook fired=%v but commit returned %v", fired, err)
+	}
 	if touched {
 		r.commitsAfterConf++
 	}
@@ -533,6 +707,14 @@ func (r *c08Run) commit(rt *rapid.T) {
 		} else if stale != "" {
 			r.staleWriteless++
 		}
+		if when == "after" {
+			// serial order that really happened: the transaction's writes, then the plain writes
+			r.applyHookOps(x, ops)
+			r.hookAfter++
+		}
+		if when != "" {
+			r.afterHookReads()
+		}
 		return
 	}
 	if !errors.Is(err, physical.ErrTransactionCommitFailure) {
@@ -548,6 +730,30 @@ func (r *c08Run) commit(rt *rapid.T) {
 		r.noOverlapFail++
 	} else if stale == "" {
 		r.blindConflicts++
+	}
+}
+
+// afterHookReads: after a commit with writes landing inside it, a brand-new transaction must read exactly the committed
+// state (plain reads, full scan and base-store scan are done by the invariant after every step).
+func (r *c08Run) afterHookReads() {
+	tx, err := r.st.Begin(r.ctx, false)
+	if err != nil {
+		r.rt.Fatalf("harness: begin: %v", err)
+	}
+	defer tx.Rollback(r.ctx) //nolint:errcheck
+	for _, k := range c08Keys {
+		_, v, ok, err := tx.Get(r.ctx, k)
+		w, exists := r.cur()[k]
+		if err != nil || ok != exists || (ok && !bytes.Equal(v, w)) {
+			r.viol("new-txn-read-mismatch", "a transaction begun after the commit reads %s = (%s,%v,err %v), committed state holds (%s,%v)", k, v, ok, err, w, exists)
+		}
+	}
+	for _, p := range c08Prefixes {
+		got, err := tx.List(r.ctx, p)
+		want := sxListPage(r.listKeys(r.cur()), p, "", -1)
+		if err != nil || !sxEqList(got, want) {
+			r.viol("new-txn-read-mismatch", "a transaction begun after the commit lists %q = %v (err %v), committed state gives %v", p, got, err, want)
+		}
 	}
 }
 
@@ -678,12 +884,38 @@ func (r *c08Run) invariant(rt *rapid.T) {
 	if !sxEqMap(got, r.cur()) {
 		r.viol("committed-state-mismatch", "full scan = %s, model of the committed state = %s", sxQM(got), sxQM(r.cur()))
 	}
+	// point reads of every key, listed or not (a stale cache entry for a deleted key is invisible to a listing-driven scan)
+	for _, k := range c08Keys {
+		_, v, ok, err := r.st.Get(r.ctx, k)
+		w, exists := r.cur()[k]
+		if err != nil || ok != exists || (ok && !bytes.Equal(v, w)) {
+			r.viol("plain-read-mismatch", "plain Get(%s) = (%s,%v,err %v), committed state holds (%s,%v)", k, v, ok, err, w, exists)
+		}
+	}
+	// the base store, read directly
+	raw, err := sxDump(r.ctx, sxPhys{r.bt.base})
+	if err != nil {
+		r.viol("scan-error", "scan of the base store failed: %v", err)
+		return
+	}
+	bad := len(raw) != len(r.cur())+len(r.baseForeign)
+	for k, v := range r.cur() {
+		g, ok := raw[r.bt.fullPrefix+k]
+		if !ok || (!r.bt.encrypted && !bytes.Equal(g, v)) {
+			bad = true
+		}
+	}
+	if bad {
+		r.viol("base-store-mismatch", "base store holds %s, committed state %s under prefix %q (+%d keys of the stack itself)", sxQL(sxSortedKeys(raw)), sxQM(r.cur()), r.bt.fullPrefix, len(r.baseForeign))
+	}
 }
 
 func c08RunStack(t *testing.T, spec c08Spec, salt int) {
 	rec := verifx.NewRecorder("C08", "txn-"+spec.name,
 		"single goroutine interleaves <=4 open transactions (rw / read-only) and plain writers over 6 keys in 2 directories, values from 3 constants; "+
-			"ops get/put/delete/list/list-page(after,limit)/commit/rollback/use-after-finish/plain read+write; OCC model (1)-(6), full scan after every step; "+
+			"ops get/put/delete/list/list-page(after,limit)/commit/rollback/use-after-finish/plain read+write; "+
+			"commit-with-hook: 1-2 generated plain writes through the top land inside Commit, below the cache, just before or just after the inner-most Commit; "+
+			"OCC model (1)-(6); full scan, point reads of all keys and base-store scan after every step; "+
 			"non-trivial = at least 2 transactions were open at once and a commit was attempted by a transaction after another committer wrote a key it had read, written or listed over")
 	defer rec.Flush()
 	ctx := context.Background()
@@ -691,11 +923,19 @@ func c08RunStack(t *testing.T, spec c08Spec, salt int) {
 		for i := 0; i < salt; i++ {
 			rapid.Bool().Draw(rt, "salt")
 		}
-		st, err := c08Build(spec)
+		bt, err := c08Build(spec)
 		if err != nil {
 			rt.Fatalf("harness: %v", err)
 		}
-		r := &c08Run{spec: spec, st: st, rec: rec, rt: rt, ctx: ctx}
+		st := bt.store
+		r := &c08Run{spec: spec, st: st, bt: bt, rec: rec, rt: rt, ctx: ctx, baseForeign: map[string]bool{}}
+		if pre, err := sxDump(ctx, sxPhys{bt.base}); err != nil {
+			rt.Fatalf("harness: %v", err)
+		} else {
+			for k := range pre {
+				r.baseForeign[k] = true
+			}
+		}
 		r.versions = []map[string][]byte{{}}
 		r.wrote = [][]string{nil}
 		r.foreignTop = map[string]bool{}
@@ -726,6 +966,7 @@ func c08RunStack(t *testing.T, spec c08Spec, salt int) {
 			"txWrite3":   r.txWrite,
 			"commit":     r.commit,
 			"commit2":    r.commit,
+			"commitHook": r.commitHooked,
 			"rollback":   r.rollback,
 			"plainWrite": r.plainWrite,
 			"plainRead":  r.plainRead,
@@ -751,6 +992,9 @@ func c08RunStack(t *testing.T, spec c08Spec, salt int) {
 		rec.Class("read-from-later-state", int64(r.laterSnapshot))
 		rec.Class("readonly-write-refused", int64(r.roRefused))
 		rec.Class("use-after-finish", int64(r.useAfter))
+		rec.Class("hook-fired-inside-commit-after-inner-commit", int64(r.hookAfter))
+		rec.Class("hook-fired-inside-commit-before-inner-commit", int64(r.hookBefore))
+		rec.Class("hook-write-on-key-written-by-the-transaction", int64(r.hookOnTxnKey))
 		rec.Case(class, nt, verifx.Digest(strings.Join(r.hist, "\n")), func() any {
 			return map[string]any{"stack": spec.name, "ops": r.hist}
 		})
